@@ -883,7 +883,7 @@ class Server(gpp.NodeParameter, metaclass=MetaServer):
         '''Free all the buffers of the server. Use Buffer.free_all(server).'''
         bundle = []
         for block in self._buffer_allocator.blocks():
-            for i in range(block.address, block.address + block.size - 1):
+            for i in range(block.address, block.address + block.size):
                 bundle.append(['/b_free', i])
             self._buffer_allocator.free(block.address)
         self.addr.send_bundle(None, *bundle)
